@@ -24,6 +24,8 @@ func init() {
 			"two fields are treated as the same field only when name, alias, absence of selections, arguments and directives agree, and a selection is removed only on that verdict after its defer information was merged. " +
 			"It does not decide exec(norm(q)) == exec(q), validity preservation or idempotence (value level).",
 		Mutants: []Mutant{
+			{Name: "skipped list elements do not advance the element counter (the repaired defect F17)", File: "v2/pkg/astnormalization/inject_input_default_values.go", Rule: "C03-R6", Key: "jsonWalker/element-counter-advances",
+				Old: "\t\tdefer func() { i++ }()\n\t\tif listOfList && dataType == jsonparser.Array {", New: "\t\tif dataType != jsonparser.Null {\n\t\t\tdefer func() { i++ }()\n\t\t}\n\t\tif listOfList && dataType == jsonparser.Array {"},
 			{Name: "CopyInlineFragment shares the selection set of its source (seeded change C03-13)", File: "v2/pkg/ast/ast_inline_fragment.go", Rule: "C03-R5", Key: "Document.CopyInlineFragment/SelectionSet",
 				Old: "\t\tselectionSet = d.CopySelectionSet(d.InlineFragments[ref].SelectionSet)\n", New: "\t\tselectionSet = d.InlineFragments[ref].SelectionSet\n"},
 			{Name: "CopyDirective shares the argument list", File: "v2/pkg/ast/ast_directive.go", Rule: "C03-R5", Key: "Document.CopyDirective/Arguments",
@@ -60,6 +62,7 @@ func runC03(r *fw.Run) {
 	wiringObligations(r, "C03-R1", "astnorm", map[string]string{})
 	visitorStateReset(r, "C03-R1", "astnorm", map[string]string{})
 	c03DeepCopies(r)
+	c03ElementIndexCounters(r)
 
 	// ---- R2 stage order --------------------------------------------------------------------------
 	r.Rule("C03-R2", "walker stages are appended in the required partial order (each constraint: rule A is applied to a walker appended strictly before the walker of rule B, or the same one where noted)")
@@ -387,4 +390,85 @@ func c03DeepCopies(r *fw.Run) {
 	}
 	r.Expect("C03-R5", "Document.Copy* functions that build a node", nFuncs, 15)
 	r.Expect("C03-R5", "fields of copied nodes", nVals, 30)
+}
+
+// c03ElementIndexCounters (R6): where a callback handed to jsonparser.ArrayEach keeps the position of the current element
+// in a captured counter (the callback does not receive an index), the counter advances exactly once for every element on
+// every path of the callback — also for the elements the callback skips. Only the abort edges (an error is non-nil) are
+// exempt. A path that returns without the increment makes every later element use the index of an earlier one: rewritten
+// values land on the wrong list position and overwrite what was there.
+func c03ElementIndexCounters(r *fw.Run) {
+	p := r.Prog
+	r.Rule("C03-R6", "a callback given to jsonparser.ArrayEach that keeps the element position in a captured counter advances it exactly once on every path (also for skipped elements); only error edges are exempt")
+	pk := p.Pkg("astnorm")
+	info := pk.TypesInfo
+	n := 0
+	for _, fi := range p.Funcs("astnorm") {
+		// candidate literals: function literals with the ArrayEach callback signature (4 parameters, last one an error)
+		fw.WalkAll(fi.Decl.Body, func(nd ast.Node) bool {
+			lit, ok := nd.(*ast.FuncLit)
+			if !ok {
+				return true
+			}
+			sig, _ := info.TypeOf(lit).(*types.Signature)
+			if sig == nil || sig.Params().Len() != 4 || sig.Results().Len() != 0 || sig.Params().At(3).Type().String() != "error" {
+				return true
+			}
+			if !strings.HasSuffix(sig.Params().At(1).Type().String(), "jsonparser.ValueType") {
+				return true
+			}
+			// captured int counters incremented inside the literal
+			counters := map[types.Object]bool{}
+			fw.WalkAll(lit.Body, func(m ast.Node) bool {
+				if inc, ok := m.(*ast.IncDecStmt); ok && inc.Tok == token.INC {
+					if o := fw.RootObj(info, inc.X); o != nil && (o.Pos() < lit.Pos() || o.Pos() > lit.End()) {
+						if id, isID := ast.Unparen(inc.X).(*ast.Ident); isID && info.Uses[id] == o {
+							counters[o] = true
+						}
+					}
+				}
+				return true
+			})
+			for c := range counters {
+				nExit := 0
+				in := fw.NewInterp(fi)
+				in.H = fw.Hooks{
+					Lit: func(l *ast.FuncLit, ctx fw.LitCtx, st *fw.State) fw.LitMode {
+						if ctx.Deferred {
+							return fw.LitOnce
+						}
+						return fw.LitSkip
+					},
+					Node: func(m ast.Node, st *fw.State) {
+						if inc, ok := m.(*ast.IncDecStmt); ok && inc.Tok == token.INC && fw.RootObj(info, inc.X) == c {
+							st.Inc("advanced")
+						}
+					},
+					Cond: func(e ast.Expr, branch bool, st *fw.State) {
+						if x, eq, ok := fw.NilCheck(info, e); ok && eq != branch {
+							if t := info.TypeOf(x); t != nil && t.String() == "error" {
+								st.Set("abort")
+							}
+						}
+					},
+					Exit: func(ret *ast.ReturnStmt, l *ast.FuncLit, st *fw.State) {
+						if l != lit || st.Must("abort") || !in.Final() {
+							return
+						}
+						nExit++
+						pos := lit.End()
+						if ret != nil {
+							pos = ret.Pos()
+						}
+						n++
+						r.Check(st.Get("advanced") == fw.Cnt{Min: 1, Max: 1}, "C03-R6", fi.Name()+"/element-counter-advances:"+c.Name()+"#"+itoa(nExit), p.Pos(pos), "exit of the ArrayEach callback in "+fi.Name()+" has advanced "+c.Name()+" exactly once",
+							"the callback returns for this element without advancing (or after advancing twice) the counter it uses as the element's position: every later element is addressed with a wrong index — a rewritten value (an injected default, a coerced list) is stored at the position of an earlier element and overwrites it")
+					},
+				}
+				in.RunLit(lit, nil)
+			}
+			return true
+		})
+	}
+	r.Expect("C03-R6", "exits of ArrayEach callbacks with a captured element counter", n, 2)
 }
